@@ -21,8 +21,9 @@ def gen_spec(seed):
     nq = rng.randint(2, 5)
     nk = rng.randint(0, 3)
     z = [[rng.gauss(0, 1) for _ in range(n)] for _ in range(2)]         # two latent factors
+    r_only = task == 'classification' and rng.random() < 0.12       # the correlation ratio as only (user-chosen) measure
     if task == 'classification':
-        ncls = rng.choice([2, 2, 3])
+        ncls = rng.choice([3, 4]) if r_only else rng.choice([2, 2, 3])
         score = [z[0][i] + 0.5 * rng.gauss(0, 1) for i in range(n)]
         cuts = sorted(score)
         y = [sum(1 for c in range(1, ncls) if score[i] > cuts[int(n * c / ncls)]) for i in range(n)]
@@ -84,11 +85,20 @@ def gen_spec(seed):
         quali[f'k{j}'] = v
     spec = {'task': task, 'quanti': quanti, 'quali': quali, 'y': y,
             'n_best': rng.randint(1, max(1, nq + nk)), 'thresh_corr': rng.choice([1, 1, 0.9, 0.7, 0.5]),
-            'measures': rng.choice(['default', 'default', 'alt'] + (['outlier', 'multi', 'ronly'] if task == 'classification' else [])),
-            'copy_of_target': False, 'select_twice': rng.random() < 0.3,
+            'measures': rng.choice(['default', 'default', 'alt'] + (['outlier', 'multi'] if task == 'classification' else [])),
+            'copy_of_target': False, 'select_twice': rng.random() < 0.3 and not r_only,
             # user-set screens on the share of the mode / of missing values (None: the defaults, 0.999)
             'thresh_mode': rng.choice([None, None, 0.9, 0.6, 0.5]), 'thresh_nan': rng.choice([None, None, None, 0.5, 0.3])}
-    if rng.random() < 0.3:
+    if r_only:
+        spec['measures'] = 'ronly'
+        if rng.random() < 0.7:
+            # a feature strictly monotone but far from linear in the class codes, next to a nearly linear noisy one
+            fn = rng.choice([lambda v: float(v) ** 3 + float(v), lambda v: round(math.exp(2.0 * float(v)), 9), lambda v: -1.0 / (1.0 + float(v))])
+            spec['quanti']['qcopy'] = [fn(v) for v in y]
+            spec['quanti']['qlin'] = [round(float(v) + rng.gauss(0, 0.04), 4) for v in y]
+            spec['copy_of_target'] = 'qcopy'
+            spec['n_best'] = rng.choice([1, 1, 2])
+    elif rng.random() < 0.3:
         # a feature that is an exact copy of / strictly monotone in the target
         if task == 'regression' or rng.random() < 0.5:
             style = rng.choice(['copy', 'affine', 'cube', 'exp'])
